@@ -93,33 +93,76 @@ def _path_predicate(b, tb, target):
     paths = []
     limit = [0]
 
-    def dfs(x, conds, seen):
+    def step_env(x, env):
+        """bool locals assigned on the way (`let before = a || b;` is a φ of constants and comparisons in MIR)"""
+        out = env
+        for s in b.stmts(x):
+            lhs = s.get("lhs")
+            if not lhs or place_proj(lhs) or b.local_ty(lhs["l"]) != "bool":
+                continue
+            rv = s["rv"]
+            v = None
+            if rv["k"] == "use":
+                k = op_const(rv["op"])
+                p = op_place(rv["op"])
+                if k is not None and (k.get("disp") in ("true", "false") or k.get("int") in ("0", "1")):
+                    v = ("const", k.get("disp") == "true" or k.get("int") == "1")
+                elif p is not None and not place_proj(p) and p["l"] in out:
+                    v = out[p["l"]]
+            elif rv["k"] == "bin":
+                at = atom_of(tb.rvalue(rv))
+                if at:
+                    v = ("atom", at, True)
+            elif rv["k"] == "un" and rv.get("op") == "Not":
+                p = op_place(rv["a"])
+                if p is not None and not place_proj(p) and p["l"] in out:
+                    w = out[p["l"]]
+                    v = ("const", not w[1]) if w[0] == "const" else ("atom", w[1], not w[2])
+            if v is not None or lhs["l"] in out:
+                out = dict(out)
+                if v is None:
+                    out.pop(lhs["l"], None)
+                else:
+                    out[lhs["l"]] = v
+        return out
+
+    def dfs(x, conds, seen, env=None):
         if limit[0] > 4000:
             return
+        env = step_env(x, env or {})
         if x == target:
             limit[0] += 1
             paths.append(list(conds))
             return
         t = b.term(x)
+        known = None
+        if t["k"] == "switch":
+            p = op_place(t["discr"])
+            if p is not None and not place_proj(p) and p["l"] in env:
+                known = env[p["l"]]
         for s in b.succ(x):
             if s not in can_reach or s in seen:
                 continue
             nc = conds
             if t["k"] == "switch":
-                cond = tb.operand(t["discr"])
-                at = atom_of(cond)
-                if at:
-                    # bool switch: target for value 0 is the false edge
-                    val = None
-                    for v, tgt in t["targets"]:
-                        if tgt == s and v == "0":
-                            val = False
-                    if val is None and s == t["otherwise"]:
-                        val = True
-                    if val is None:
-                        val = True
-                    nc = conds + [(at, val)]
-            dfs(s, nc, seen | {s})
+                # bool switch: target for value 0 is the false edge
+                val = None
+                for v, tgt in t["targets"]:
+                    if tgt == s and v == "0":
+                        val = False
+                if val is None:
+                    val = True
+                if known is not None and known[0] == "const":
+                    if known[1] != val:
+                        continue          # this edge is not taken on the path walked so far
+                elif known is not None:
+                    nc = conds + [(known[1], val == known[2])]
+                else:
+                    cond = tb.operand(t["discr"])
+                    at = atom_of(cond)
+                    if at:
+                        nc = conds + [(at, val)]
+            dfs(s, nc, seen | {s}, env)
 
     dfs(0, [], {0})
     if limit[0] > 4000 or not paths:
@@ -304,25 +347,56 @@ def ctor_sites(F, rep, rule="R2"):
                 val = tb.operand(rv["ops"][0])
                 ok = False
                 why = "TaxPeriod constructed without a dominating range check on the same value"
-                for sb in b.reachable():
-                    t = b.term(sb)
-                    if t["k"] != "switch":
-                        continue
-                    c = tb.operand(t["discr"])
-                    rng = _range_test(c, val)
-                    if rng is None:
-                        continue
-                    edge_true = (sb, t["otherwise"])
-                    if b.edge_dominates(edge_true, i):
-                        if rng == (1900, 2100):
-                            ok = True
-                            why = "constructed only on the true edge of 1900 ≤ start_year ≤ 2100 (constants evaluated)"
-                        else:
-                            why = f"range test uses {rng}, the property states 1900..=2100"
+                rng = _interval_from_guards(b, tb, i, val)
+                if rng is not None:
+                    if rng == (1900, 2100):
+                        ok = True
+                        why = "constructed only where 1900 ≤ start_year ≤ 2100 holds (constants evaluated; interval implied by the dominating branch edges)"
+                    else:
+                        why = f"the dominating tests imply start_year ∈ [{rng[0]}, {rng[1]}], the property states 1900..=2100"
                 rep.ob(rule, f"{b.short}:TaxPeriod-ctor", ok, why, b.loc(s["sp"]), key=f"{rule}:{b.short}:taxperiod-ctor")
     if n == 0:
         rep.unresolved(rule, "TaxPeriod-ctor", "no construction of TaxPeriod found")
     return n
+
+
+def _interval_from_guards(b, tb, bb, val):
+    """tightest [lo, hi] on the integer term `val` implied by the branch edges that dominate block bb; None = no test at all"""
+    from roles import guards_of, truth
+    lo = hi = None
+    seen = False
+
+    def tighten(op, k):
+        nonlocal lo, hi, seen
+        seen = True
+        if op == "Ge":
+            lo = k if lo is None else max(lo, k)
+        elif op == "Gt":
+            lo = k + 1 if lo is None else max(lo, k + 1)
+        elif op == "Le":
+            hi = k if hi is None else min(hi, k)
+        elif op == "Lt":
+            hi = k - 1 if hi is None else min(hi, k - 1)
+    NEG = {"Ge": "Lt", "Gt": "Le", "Le": "Gt", "Lt": "Ge"}
+    FLIPC = {"Ge": "Le", "Gt": "Lt", "Le": "Ge", "Lt": "Gt"}
+    for cnd, v, s in guards_of(b, tb, bb):
+        t = truth(v)
+        r = _range_test(cnd, val)
+        if r is not None:
+            if t:
+                tighten("Ge", r[0])
+                tighten("Le", r[1])
+            continue
+        if isinstance(cnd, tuple) and cnd and cnd[0] in ("bin", "cmp") and cnd[1] in NEG:
+            op, x, y = cnd[1], cnd[2], cnd[3]
+            if x == val and isinstance(y, tuple) and y[0] == "int":
+                tighten(op if t else NEG[op], y[1])
+            elif y == val and isinstance(x, tuple) and x[0] == "int":
+                op2 = FLIPC[op]
+                tighten(op2 if t else NEG[op2], x[1])
+    if not seen:
+        return None
+    return (lo, hi)
 
 
 def _range_test(c, val):
@@ -404,9 +478,28 @@ def sibling_builders(F, rep):
             if rv["k"] == "agg" and rv["adt"].endswith("models::TaxYearSummary"):
                 tb = Terms(F, b, inline_depth=0)
                 aggs.append((b, {n: tb.operand(o) for n, o in zip(rv["fields"], rv["ops"])}, s))
-    if len(aggs) < 2:
-        rep.unresolved("R5", "builders", f"{len(aggs)} constructions of TaxYearSummary in cgt_core (expected the single-year and the all-years builder)")
+    if len(aggs) < 1:
+        rep.unresolved("R5", "builders", "no construction of TaxYearSummary in cgt_core")
         return
+    if len(aggs) == 1:
+        # one shared assembler: the sibling comparison moves to its call sites — the single-year and the all-years path must
+        # hand it values produced the same way (argument by argument, the period aside)
+        sb, sfs, ss = aggs[0]
+        period_param = sfs["period"][1] if isinstance(sfs.get("period"), tuple) and sfs["period"][0] == "param" else None
+        sites = list(F.call_sites(lambda cal, sid=sb.id: cal == sid))
+        sigs = []
+        for cb, ci, ct in sites:
+            ctb = Terms(F, cb, inline_depth=0)
+            sigs.append((cb, ct, [None if k == period_param else _producer_sig(ctb.operand(a)) for k, a in enumerate(ct["args"])]))
+        for cb, ct, sg in sigs[1:]:
+            for k, (a, c2) in enumerate(zip(sigs[0][2], sg)):
+                if a is None:
+                    continue
+                rep.ob("R5", f"{cb.short}~{sigs[0][0].short}:arg{k}", a == c2,
+                       f"both paths hand the shared assembler argument {k} from {sorted(a) or 'plain values'}" if a == c2 else
+                       f"argument {k} of {sb.short} is produced by {sorted(a)} in {sigs[0][0].short} but by {sorted(c2)} in {cb.short}",
+                       cb.loc(ct["sp"]), key=f"R5:arg{k}:builders-differ")
+        rep.note(f"R5: one shared summary assembler ({sb.short}) with {len(sites)} call sites")
     ref_b, ref, _ = aggs[0]
     for b, fs, s in aggs[1:]:
         for name in sorted(ref):
